@@ -39,6 +39,30 @@ CHECKS = {
             "value whose text falls outside the rule. The per-class layer / wire escaping is covered under C01, C06, C13.",
             "Trusted: z3; models of Decimal str/format/quantize, str(int), strftime, regex (validated per path on the real code).",
             "DESIGN.md section 3 C11", ""),
+    "C12": (True,
+            "make_header over every integer version 0..1099 (and 1-4 character version texts), symbolic security level and UIDs of 1-3/36/37 "
+            "characters: z3 proves the kind routing, refusal of everything unsupported with OFXHeaderError, and that str(header)+body parses "
+            "back (real parse_header over a BytesIO model) to equal fields. Corruption side: one field value replaced by symbolic characters "
+            "outside its domain, one mandatory field omitted, two adjacent fields transposed - never a header object.",
+            "Trusted: z3; models of re, BytesIO, ascii codec, str.join/format (validated per path on the real code).",
+            "DESIGN.md section 3 C12", ""),
+    "C04": (True,
+            "Per class (core classes + seeded tenth in quick, all in thorough), both construction routes run through the instrumented "
+            "__init__/validate_args/_apply_args/from_etree/_convert: every presence combination of each exclusivity group (union over the MRO), "
+            "each required child omitted, strings at length and length+1 (symbolic characters), integers around 10^n (symbolic), foreign "
+            "enumeration tokens (symbolic strings constrained unequal to every token), one swap/duplicate/move of a child, list members of "
+            "declared and foreign classes. Oracle: validator derived from the declarations.",
+            "Trusted: z3; the reflection helpers in ofxgen.py (base instances), the reference validator in harness/c04.py. Classes overriding "
+            "validate_args are only required to reject violations.",
+            "DESIGN.md section 3 C04", ""),
+    "C13": (True,
+            "Exhaustive over all exported aggregate classes and every declared child (finite 'programs' space iterated; each probe's value "
+            "symbolic): an instance with the child is constructible, to_etree writes it under its tag with the converter's text, from_etree "
+            "reads it back into the same attribute with no unknown-tag warning; members of every list attribute (symbolic order) survive the "
+            "library's own writer+reader; every exclusivity group names existing non-repeated optional children and can fire; tags resolve to "
+            "the class of the same name.",
+            "Trusted: z3; ofxgen.py reachability search (native); harness/common.py structural equality.",
+            "DESIGN.md section 3 C13", ""),
 }
 
 NOT_YET = {
